@@ -18,6 +18,7 @@ INF = float("inf")
 ALPHA = {
     "int": [0, 2, None],
     "str": ["", "b", None],
+    "strp": ["a", "ab", None],     # one string is a proper prefix of the other (a character-wise inverted key gets these wrong)
     "eqnum": [1, True, None],      # 1 == True: ties between distinguishable values (stability is observable)
     "intc": [-1, -2, None],        # equal hash, different value
     "finf": [INF, 1.5, None],      # a real +inf next to None (None must still be placed by the None rule, not as a sentinel)
@@ -539,8 +540,8 @@ def check(ctx):
                     units.append(("table", kind, 1, n, None))
             units.append(("vector", kind, n))
     N2 = ctx.pick(3, 4)
-    for kind in (("int", "str") if ctx.thorough else ("int",)):
-        for n in range(0, N2 + 1):
+    for kind in ("int", "str", "strp"):
+        for n in range(0, (N2 if (ctx.thorough or kind == "int") else 3) + 1):
             if n >= 3:
                 for f in itertools.product(ALPHA[kind], repeat=2):
                     units.append(("table", kind, 2, n, f))
